@@ -152,4 +152,13 @@ theorem meta_generated_agrees (uni : String → Option CharSet) (memchr detail :
         PestModel.C02.outcome (PestModel.C02.parseWith .gen PestModel.Gen.Meta.optimized uni memchr detail fg name input) :=
   PestModel.E2E.accepted_grammar_generated_parser_agrees false _ _ meta_accepted uni memchr detail name input
 
+/-- **A text that is not a grammar is rejected with a position inside the text** (C09's "located errors", for the parse stage):
+when the VM model of the bootstrapped meta-parser fails on a text, under any start rule of `grammar.pest`, its error position is
+a UTF-8 boundary of that text (C08 `error_position_inside` on the regenerated, really-optimized meta-grammar). -/
+theorem meta_error_located (uni : String → Option CharSet) (memchr detail : Bool) (fuel : Nat) (name : String) (input : Str)
+    (st : PState) (h : PestModel.C01.vmParse PestModel.Gen.Meta.optimized uni memchr detail fuel name input = .err st) :
+    PestModel.LineCol.isBoundary input st.attemptPos = true :=
+  PestModel.C08.error_position_inside false _ meta_accepted.isOptimized meta_accepted.tagRules meta_accepted.small
+    uni memchr detail fuel name input st h
+
 end PestModel.Capstone
